@@ -96,6 +96,11 @@ def main(argv):
 
 if __name__ == '__main__':
   try:
+    import signal
+    signal.signal(signal.SIGPIPE, signal.SIG_DFL)     # `... | head` is not an error
+  except Exception:
+    pass
+  try:
     sys.exit(main(sys.argv[1:]))
   except SystemExit:
     raise
